@@ -20,8 +20,8 @@ META = dict(
     level_text='every interleaving of send / respond / failure / late-response events (bounded) on the real Connection code, with the failure kind and point symbolic and the number of pending requests crossing the thread-offload threshold; z3 decides each path',
     level_note='task-level schedules, plus (race-* jobs) one pre-emption by another thread - a send, a failure of the connection from a non-event-loop thread, the offloaded error thread - at any acquire/release of the connection lock reached while no lock is held; event-loop work (responses, pages, first-response handling, decode/protocol errors) never overlaps itself; the failure is otherwise injected between events, not between two bytecodes of send_msg; the offloaded error thread is run as a deferred task; transport and codec are harness fakes',
     technique='symbolic execution (sx proxies) of the real Connection.defunct/error_all_requests/process_msg/send_msg over solver-enumerated event histories + z3 validity per path',
-    bounds=dict(quick='<= 3 requests + <= 1 continuous paging session, histories of <= 5 events, failure kinds {socket error, socket error while a send is inside push(), decode error, ProtocolException response, close()}, CALLBACK_ERR_THREAD_THRESHOLD patched to 2',
-                thorough='<= 4 requests, histories of <= 7 events'),
+    bounds=dict(quick='<= 3 requests + <= 1 continuous paging session, histories of <= 5 events, failure kinds {socket error, socket error while a send is inside push(), decode error, ProtocolException response, close()}, CALLBACK_ERR_THREAD_THRESHOLD patched to 2; race jobs: 2 requests, histories of <= 4 events + 1 pre-emption',
+                thorough='<= 4 requests, histories of <= 8 events; race jobs: <= 3 requests, <= 6 events + 1 pre-emption'),
     assumptions=['a reactor reports a socket error by calling defunct(); close() behaves like the asyncore/libev reactors (errors all requests with ConnectionShutdown unless already defunct)'],
     stubs=['transport: harness kit', 'protocol codec: identity', 'threading.Thread in cassandra.connection: deferred task'],
     outside=['failure between two statements of send_msg (sync-point-level schedules)', 'heartbeat-detected failures (C44)'],
@@ -274,11 +274,11 @@ def jobs(tier):
     o = dict(max_seconds=1500 if th else 250)
     js = []
     for first in range(2):
-        js.append(Job('history-f%d' % first, 'h_history', dict(steps=7 if th else 5, nreq=4 if th else 3),
+        js.append(Job('history-f%d' % first, 'h_history', dict(steps=8 if th else 5, nreq=4 if th else 3),
                       dict(o, pin={'ev1': first})))
-    js.append(Job('history-rest', 'h_history', dict(steps=7 if th else 5, nreq=4 if th else 3), dict(o, pin_not={'ev1': [0, 1]})))
+    js.append(Job('history-rest', 'h_history', dict(steps=8 if th else 5, nreq=4 if th else 3), dict(o, pin_not={'ev1': [0, 1]})))
     for first in range(3):
-        js.append(Job('race-f%d' % first, 'h_history', dict(steps=5 if th else 4, nreq=3 if th else 2, with_cp=False, race=True), dict(o, pin={'ev1': first})))
-    js.append(Job('race-cp', 'h_history', dict(steps=5 if th else 4, nreq=2, with_cp=True, race=True), dict(o, pin={'ev0': 0})))
+        js.append(Job('race-f%d' % first, 'h_history', dict(steps=6 if th else 4, nreq=3 if th else 2, with_cp=False, race=True), dict(o, pin={'ev1': first})))
+    js.append(Job('race-cp', 'h_history', dict(steps=6 if th else 4, nreq=2, with_cp=True, race=True), dict(o, pin={'ev0': 0})))
     js.append(Job('no-cp', 'h_history', dict(steps=6 if th else 5, nreq=3, with_cp=False), o))
     return js
